@@ -86,8 +86,7 @@ func (fg *FuncGen) errorsIs(v *ssa.Call, err, target TTerm) {
 		}
 	}
 	// foreign error types: unknown
-	foreign := fg.fresh("foreignis")
-	fg.emit("(declare-const %s Bool)", foreign)
+	foreign := "(errors.isf " + err.S + " " + target.S + ")"
 	notKnown := "true"
 	if len(known) > 0 {
 		notKnown = "(not (or " + strings.Join(known, " ") + "))"
